@@ -92,6 +92,9 @@ _CMP = {
 
 ANALOG_PIN_RE = re.compile(r"^A\d+$")
 
+# Largest integer (in bits) that constant folding of ``**`` and ``<<`` may produce.
+_MAX_FOLDED_BITS = 4096
+
 # --- verification hook (add-only) -------------------------------------------
 # With REDUINO_VERIF=1 in the environment at import time, every source line that
 # the parser drops without emitting a node or raising is recorded here as
@@ -345,6 +348,14 @@ def _eval_const(expr: str, env: dict):
         }
         if not isinstance(a, (int, float)) or not isinstance(b, (int, float)):
             raise ValueError("unsupported operand type")
+        # refuse to fold integer powers / shifts whose exact value would be enormous
+        # (``9**9**9`` would keep the host busy for minutes); the caller then emits
+        # the expression instead of a folded constant
+        if isinstance(a, int) and isinstance(b, int):
+            if opcls is ast.Pow and b > 0 and a.bit_length() * b > _MAX_FOLDED_BITS:
+                raise ValueError("constant too large")
+            if opcls is ast.LShift and a.bit_length() + b > _MAX_FOLDED_BITS:
+                raise ValueError("constant too large")
         return ops[opcls](a, b)
 
     tree = ast.parse(expr, mode="eval")
